@@ -35,6 +35,8 @@ Your task: make ONE small, subtle, realistic change to the source under {wt}/src
 
 Changes that were already tried for this property (each listed by the input it needs) - do something DIFFERENT from all of them, in a different function or mechanism, preferably in a part of the code path none of them touched:
 """ + "".join("   - %s\n" % x for x in tried) + f"""
+Across all properties, changes that introduce state shared between operations of one process (class attributes, mutable default arguments, values parked in the configuration singleton, caches keyed by path) and changes to the consumer's observer loop have already been tried many times: prefer a different kind of mechanism - one inside the logic the property is about.
+
 IMPORTANT: run everything with PYTHONPATH={wt}/src so that your copy of the package is imported (check with: PYTHONPATH={wt}/src /venv/bin/python -c "import jasm; print(jasm.__file__)").
 
 Then write a demonstration script {wt}/{demo} that uses only the public API (from jasm.match import MasterOfPuppets; from jasm.global_definitions import MatchConfig, InputFileType, MatchingReturnMode, MatchingSearchMode  -- read the source for the exact names -- or the `python -m jasm.main` command line), writes its rule and listing files into a tempfile.mkdtemp() directory, and exits with status 1 when the property is violated and 0 when it holds. It must exit 1 with your change and 0 on the unchanged code (verify both: `git stash` / `git stash pop`, or `git diff -- src > patch.diff; git checkout -- src; ...; git apply patch.diff`).
